@@ -761,8 +761,18 @@ func runC04(c *Ctx, r *Report) {
 			}
 		}
 		if req == nil {
+			// the requested count computed by a helper (`pointerCount := effectivePointerCount(opts)`): its result
 			for v := range backSlice(call.Call.Args[1], nil) {
-				if u, ok := v.(*ssa.UnOp); ok && u.Op == token.MUL {
+				if c2, ok := v.(*ssa.Call); ok && c2.Parent() == sf && isIntType(c2.Type()) && derivesFromField(c2, ptrF) {
+					if cal := c2.Call.StaticCallee(); cal != nil && p.firstParty(calleePkg(cal)) && calleeOf(c2) != pow && minMaxHelper(p, p.ByObj[calleeOf(c2)]) == "" {
+						req = c2
+					}
+				}
+			}
+		}
+		if req == nil {
+			for v := range backSlice(call.Call.Args[1], nil) {
+				if u, ok := v.(*ssa.UnOp); ok && u.Op == token.MUL && u.Parent() == sf {
 					if f, _ := fieldOf(u.X); f == ptrF {
 						req = u
 					}
